@@ -1584,7 +1584,11 @@ class C02(Spec):
                   'reachable in safe modes 1-7 has star height <= 1 except the first Block Attributes pattern, whose successor pattern is '
                   'matched separately -- the deliberate split), C02_no_nullable_loop_body (no unbounded repetition over a body that can match '
                   'the empty string, the (?:\\s*)? optionals being bounded), C02_loops_progress (the model matcher only iterates a repetition '
-                  'after progress or below its minimum: sre last_ptr rule, by construction of `loop`). Termination of the block loop for every '
+                  'after progress or below its minimum: sre last_ptr rule, by construction of `loop`), C02_exclusive_alternatives with its '
+                  'soundness lemma (under every unbounded repetition the alternatives start with different characters, over Latin-1, so a loop has '
+                  'one iteration history per subject), C02_split_pattern, C02_no_macro_definitions (modes without bit 8 cannot grow the reader '
+                  'through new macros), C02_fuel_monotone (the model\'s fuel is only a termination device: a result obtained with some fuel is '
+                  'the result with every larger fuel, for every source, options and session). Termination of the block loop for every '
                   'input is NOT proved (macro-line expansion can grow the reader; the unchanged code does loop, see known findings), and '
                   'running time is runtime behaviour: both are decided by pumped-input timing against the implementation and the '
                   'model/implementation comparison of ok/timeout.')
